@@ -13,9 +13,9 @@ ASSUMPTIONS = ["extensions are symmetric (presupposed by the property)"]
 
 def run(F, rep):
     rep.engines.update(["E2-DT", "E1"])
-    dt_tables.hash_step_table(F, rep, "C01.3")
-    dt_compress.extender_table(F, rep, "C01.1", graph_route=False)
-    dt_compress.hash_builder_table(F, rep, "C01.2")
-    dt_compress.hash_driver_table(F, rep, "C01.4")
-    dt_compress.entry_points_table(F, rep, "C01.4")
-    dt_compress.node_storage_rules(F, rep, "C01.5")
+    rep.run(dt_tables.hash_step_table, F, rep, "C01.3")
+    rep.run(dt_compress.extender_table, F, rep, "C01.1", graph_route=False)
+    rep.run(dt_compress.hash_builder_table, F, rep, "C01.2")
+    rep.run(dt_compress.hash_driver_table, F, rep, "C01.4")
+    rep.run(dt_compress.entry_points_table, F, rep, "C01.4")
+    rep.run(dt_compress.node_storage_rules, F, rep, "C01.5")
